@@ -39,6 +39,8 @@ pub enum BvmOp {
     ReplaceByClone,
     RebuildFromIter,
     ShrinkToFit,
+    /// `dst.clone_from(&bv); bv = dst` where dst holds `dst_len` bits (ones if `dst_ones`)
+    CloneFromInto { dst_len: u16, dst_ones: bool },
 }
 
 #[derive(Clone, Debug, PartialEq, Eq, Hash, Serialize, Deserialize)]
@@ -91,6 +93,7 @@ impl Prop for C08 {
             1 => Just(BvmOp::ReplaceByClone),
             1 => Just(BvmOp::RebuildFromIter),
             1 => Just(BvmOp::ShrinkToFit),
+            2 => (prop_oneof![0u16..3000, Just(512u16), Just(1024), Just(0)], any::<bool>()).prop_map(|(dst_len, dst_ones)| BvmOp::CloneFromInto { dst_len, dst_ones }),
         ];
         let nops = prop_oneof![3 => 0usize..=12, 3 => 0usize..=maxops / 3, 1 => 0usize..=maxops];
         (start, nops.prop_flat_map(move |k| proptest::collection::vec(op.clone(), k..=k)), any::<u64>())
@@ -245,6 +248,13 @@ impl Prop for C08 {
                     bv = nb;
                 }
                 BvmOp::ShrinkToFit => bv.shrink_to_fit(),
+                BvmOp::CloneFromInto { dst_len, dst_ones } => {
+                    note("clone_from", *dst_len as u128, 0, 0);
+                    let mut dst: BitVectorMut = std::iter::repeat(*dst_ones).take(*dst_len as usize).collect();
+                    dst.clone_from(&bv);
+                    ensure!(dst == bv, "after op {}: dst.clone_from(&bv) leaves dst != bv (dst held {} bits, bv holds {})", k + 1, dst_len, bv.len());
+                    bv = dst;
+                }
             }
             quick_obs(&bv, &m, k + 1)?;
             ctx.queries += 4;
